@@ -398,12 +398,12 @@ def check_C08(tier, seed):
     if tier == QUICK:
         parser_runs(rep, "robust", seed + 50, "c08a_", 12, 400)
         parser_runs(rep, "sched", seed + 51, "c08b_", 6, 100)
-        parser_runs(rep, "sched", seed + 52, "c08c_", 12, 60, parsers=DIMACS, specs=("Trace_Dimacs",))
+        parser_runs(rep, "sched", seed + 52, "c08c_", 12, 60, parsers=DIMACS + ",log", specs=("Trace_Dimacs",))
         parser_runs(rep, "corrupt", seed + 53, "c08d_", 12, 300, parsers="cnf,wcnf,gcnf,log,aag,btor2")
     else:
         parser_runs(rep, "robust", seed + 50, "c08a_", 14, 8000)
         parser_runs(rep, "sched", seed + 51, "c08b_", 14, 1500)
-        parser_runs(rep, "sched", seed + 52, "c08c_", 14, 1200, parsers=DIMACS, specs=("Trace_Dimacs",))
+        parser_runs(rep, "sched", seed + 52, "c08c_", 14, 1200, parsers=DIMACS + ",log", specs=("Trace_Dimacs",))
         parser_runs(rep, "corrupt", seed + 53, "c08d_", 14, 6000, parsers="cnf,wcnf,gcnf,log,aag,btor2")
     rep.cov["rule"] = ("sentence 2: well-formed documents of cnf/wcnf/gcnf/solver log/aag/btor2 with one numeric token replaced "
                        "by a garbage token, an overflowing number or an out-of-range literal at a known span: the reported "
@@ -495,7 +495,7 @@ def roundtrip_runs(rep, seed, prefix, shards, per_shard, release=False):
         nruns += json.loads(out.strip().splitlines()[-1])["runs"]
     states = 0
     nrej = 0
-    for sp in ("Trace_Contract", "Trace_AigerRef", "Trace_Dimacs"):
+    for sp in ("Trace_Contract", "Trace_AigerRef", "Trace_Btor2Ref", "Trace_Dimacs"):
         r1 = validate_traces(prefix + sp[6:9], sp, sp + ".cfg", paths, timeout=2400)
         _report_rejects(rep, sp, r1["rejected"], "vh roundtrip --seed %d (run id in reset record); ./check C03 --replay <this file>" % seed)
         states += r1["states"]
@@ -542,7 +542,7 @@ def check_C03(tier, seed):
                        "are parsed, written and parsed again: the second parse must return the first one's items. "
                        "A case is distinct by (parser, literal type, written bytes)")
     rep.assumptions += ["names and comments are sampled, not enumerated; delta codes >= 2^56 are out of reach (DESIGN.md §7)",
-                        "BTOR2 has no independent reference reading: its round trip is held to the contract only"]
+                        "the written bytes of every format are also read by the independent TLA+ readings (Dimacs machine, AigerRef, Btor2Ref)"]
     return rep.finish()
 
 
@@ -567,7 +567,11 @@ def check_C06(tier, seed):
         parser_runs(rep, "sched", seed + 3, "c06s_", 12, 40, parsers=DIMACS, specs=("Trace_Dimacs",))
         parser_runs(rep, "bounds", seed + 4, "c06a_", 12, 200, parsers="aag,aig", specs=("Trace_Contract", "Trace_AigerRef"))
         parser_runs(rep, "sched", seed + 6, "c06b_", 6, 60, parsers="aag,aig", specs=("Trace_AigerRef",))
+        parser_runs(rep, "sched", seed + 8, "c06c_", 6, 60, parsers="btor2", specs=("Trace_Btor2Ref",))
+        parser_runs(rep, "sched", seed + 9, "c06d_", 4, 60, parsers="log", specs=("Trace_Dimacs",))
     else:
+        parser_runs(rep, "sched", seed + 8, "c06c_", 14, 800, parsers="btor2", specs=("Trace_Btor2Ref",))
+        parser_runs(rep, "sched", seed + 9, "c06d_", 14, 600, parsers="log", specs=("Trace_Dimacs",))
         parser_runs(rep, "bounds", seed + 4, "c06a_", 14, 4000, parsers="aag,aig", specs=("Trace_Contract", "Trace_AigerRef"))
         parser_runs(rep, "sched", seed + 6, "c06b_", 14, 800, parsers="aag,aig", specs=("Trace_AigerRef",))
         parser_runs(rep, "bounds", seed, "c06_", 14, 3000, parsers=DIMACS, specs=BOTH)
@@ -585,8 +589,9 @@ def check_C06(tier, seed):
     rep.cov["rule"] += (" AIGER: documents with literals on and around 2M+1, odd / zero defining literals, counts around M, "
                         "binary delta codes of every encoded length incl. padded and > 64-bit ones: whenever the real parser "
                         "accepts, its items must equal the reference reading AigerRef (arbitrary-precision, limits enforced).")
-    rep.assumptions += ["BTOR2 numbers are covered at contract level (C01/C05) and by the round-trip check C03 only",
-                        "AigerRef is consulted for accepted inputs only (C06 is about accepted inputs)"]
+    rep.cov["rule"] += (" BTOR2 and solver log: accepted runs over generated / mutated documents (huge numerals incl. u64 "
+                        "boundaries) must equal the reference reading Btor2Ref / the solver-log machine.")
+    rep.assumptions += ["AigerRef / Btor2Ref are consulted for accepted inputs only (C06 is about accepted inputs)"]
     return rep.finish()
 
 
@@ -605,7 +610,7 @@ def check_C07(tier, seed):
                        "value lines split anywhere, comment and - when ignored - unknown lines anywhere): ParserContract "
                        "requires every layout to return the canonical rendering's items and a clean end, and the Dimacs "
                        "machine requires each run to be what the token grammar says. " + CONTRACT_RULE)
-    rep.assumptions += ["the solver-log parser is held to the contract (equal results across layouts), not to a token-level machine"]
+    rep.assumptions += ["layouts are sampled from the layout grammar (6 per value), not enumerated"]
     return rep.finish()
 
 
